@@ -357,7 +357,12 @@ func (r *Run) exec(ctx context.Context, idx int, st *Step) StepObs {
 		if len(r.Trace) == r.H.N {
 			r.FirstNoPresence = st.NoPresence
 		}
-		a, e := rp.C.Attach(ctx, r.DocKey, sim.AttachOpts{DisableGC: st.OptOut || r.H.AllOptOut, DisablePresence: st.NoPresence, Presence: st.Pres})
+		nop := st.NoPresence || (r.H.NoPresenceDoc && !r.H.LateNoFlag)
+		pres := st.Pres
+		if pres == nil && !nop {
+			pres = map[string]string{"name": fmt.Sprintf("c%d", st.C)}
+		}
+		a, e := rp.C.Attach(ctx, r.DocKey, sim.AttachOpts{DisableGC: st.OptOut || r.H.AllOptOut, DisablePresence: nop, Presence: pres})
 		rp.A = a
 		err = e
 	case "D":
@@ -578,7 +583,7 @@ func (rn *Runner) RunFull(ctx context.Context, h *History) (*Run, *Outcome) {
 			if late[i] && i != 0 {
 				continue
 			}
-			o := r.Exec(ctx, -1, &Step{Op: "A", C: i})
+			o := r.Exec(ctx, -1, &Step{Op: "A", C: i, NoPresence: h.NoPresenceDoc && (i == 0 || !h.LateNoFlag), Pres: map[string]string{"name": fmt.Sprintf("c%d", i)}})
 			if o.Err != "" {
 				r.problem("setup-attach-error", -1, "client %d: %s", i, o.Err)
 			}
